@@ -389,6 +389,11 @@ func ruleUsesOnly(r *rep.Report, p *load.Program, rule, role string, paths []*pt
 	}
 	for _, pa := range paths {
 		for _, e := range pa.Events {
+			// parking the value in a local of the function (a slice of parts handed to a helper, a temporary) is not a
+			// use: whatever later reads the local shows up as its own event with the same term
+			if e.Callee == "store" && len(e.Addrs) == 1 && e.Addrs[0] != nil && strings.HasPrefix(e.Addrs[0].String(), "addr(local:") {
+				continue
+			}
 			for _, a := range e.Args {
 				if occurs(a, 0) {
 					n++
